@@ -160,7 +160,7 @@ func chainCase(id string, items, tbl []string, ncalls int) {
 		if err != nil && src.first != nil {
 			sawErr = true
 			if err != src.first {
-				e.Fail("chain:source-error-not-promoted",
+				failCapped("chain:source-error-not-promoted",
 					fmt.Sprintf("sourceAwareReader.Read reported %q although the source had failed with %q", err, src.first),
 					map[string]any{"source": items, "layer_table": tbl, "call": j + 1})
 			}
@@ -218,7 +218,7 @@ func chainSide(R *rand.Rand) {
 		e.Line("cases.txt", "%s P %d %s", id, reads, strings.Join(items, " "))
 		e.Line("impl.obs", "%s %s", id, errLetter(got))
 		if src.first != nil && got != src.first {
-			e.Fail("chain:constructor-error-not-promoted", fmt.Sprintf("promote returned %q although the source had failed with %q", got, src.first),
+			failCapped("chain:constructor-error-not-promoted", fmt.Sprintf("promote returned %q although the source had failed with %q", got, src.first),
 				map[string]any{"source": items, "reads": reads})
 		}
 		e.Count(src.first != nil, id+strings.Join(items, " "), "chain/ctor")
